@@ -21,19 +21,20 @@ func oracleIgnore(c *Ctx) error {
 	}
 	ign := ignoreLines(c.Pre)
 	sub := c.Step.Args[0]
-	// whatever the command: nothing inside .goit and nothing ignored is staged
+	// whatever the command: nothing inside .goit is staged, and no command stages (creates or changes
+	// the entry of) a path that .goitignore excludes. An entry staged before its path became ignored may stay.
 	for _, e := range c.Post.Index.Entries {
 		if insideGoit(e.Path) {
 			return fmt.Errorf("after %s, a path inside Goit's own directory is staged: %q", c.Step, e.Path)
 		}
-		if ignoredBy(ign, e.Path) {
-			return fmt.Errorf("after %s, a path excluded by .goitignore %q is staged: %q", c.Step, ign, e.Path)
+		if ignoredBy(ign, e.Path) && c.Pre.IdxMap[e.Path] != e.ID && sub == "add" {
+			return fmt.Errorf("%s staged a path excluded by .goitignore %q: %q", c.Step, ign, e.Path)
 		}
 	}
 	if sub == "add" && c.Res.Exit == 0 {
 		// completeness: everything named and not excluded is staged with its current bytes
 		dot, dirWithExcluded, ordinary := false, false, false
-		for _, a := range c.Step.Args[1:] {
+		for _, a := range cleanArgsIn(c, c.Step.Args[1:]) {
 			if a == "." {
 				dot = true
 			}
@@ -68,10 +69,16 @@ func oracleIgnore(c *Ctx) error {
 		}
 		var listed []string
 		for p := range rep.Staged {
-			listed = append(listed, p)
+			if insideGoit(p) {
+				return fmt.Errorf("status lists %q, which is inside .goit", p)
+			}
 		}
-		for p := range rep.Unstaged {
-			listed = append(listed, p)
+		// staged entries and deleted tracked files are reported from the index, whether or not the path became
+		// ignored after it was staged (the statement is about what add stages and what the walk lists)
+		for p, k := range rep.Unstaged {
+			if k == "modified" {
+				listed = append(listed, p)
+			}
 		}
 		for p := range rep.Untracked {
 			listed = append(listed, p)
@@ -149,6 +156,15 @@ func init() {
 			}
 			return Step{Op: "write", Path: p, Data: g.SmallContent()}
 		}},
+		opGen{"ignore-more", always, func(g *G) Step {
+			// (re)write .goitignore later in the history: paths that are already tracked may become ignored
+			return Step{Op: "write", Path: ".goitignore", Data: g.IgnoreFile()}
+		}},
+		opGen{"add-abs", always, func(g *G) Step {
+			// spellings of '.' and of .goit paths that do not start at the repository root
+			w := g.E.Box.Work
+			return goit("add", g.Pick([]string{w, "../w", w + "/.goit/config", "../w/.goit/HEAD", w + "/.goit", "../w/.", w + "/."}, "absForm"))
+		}},
 		opGen{"reset-hard-0", hasCommit, func(g *G) Step { return goit("reset", "--hard", "HEAD@{0}") }},
 		opGen{"restore-dir", hasTracked, func(g *G) Step {
 			ds := trackedDirs(g.E.Cur.Tracked())
@@ -160,5 +176,5 @@ func init() {
 	)
 }
 
-var ignoreWeights = Weights{"write-new": 14, "write-ignored": 16, "modify": 6, "remove-file": 3, "add": 8, "add-dot": 16, "add-dir": 14, "add-goit-path": 4,
+var ignoreWeights = Weights{"write-new": 14, "write-ignored": 16, "modify": 6, "remove-file": 3, "add": 8, "add-dot": 16, "add-dir": 14, "add-goit-path": 4, "add-abs": 5, "ignore-more": 3,
 	"status": 10, "commit": 8, "reset-hard-0": 4, "restore-dir": 4, "rm": 2}
